@@ -18,9 +18,9 @@ def translate(e, bounds, N=192):
     def tr(t):
         i = t.get_id()
         if i in cache:
-            return cache[i]
+            return cache[i][0]
         r = tr_(t)
-        cache[i] = r
+        cache[i] = (r, t)     # keep t alive: the ids of collected ASTs are reused
         return r
 
     def tr_(t):
